@@ -35,3 +35,59 @@ Lemma C19_fact_strip_eol_is_model : forall l, strip_eol l = strip_eol_gen 0 0 l.
 Proof. reflexivity. Qed.
 Lemma C19_fact_word_sep : word_sep = [32].
 Proof. reflexivity. Qed.
+
+(* ---- column output (Simple::write) ---- *)
+From SudachiVerif Require Import Model.CliColumns Proofs.CliColumnsProofs.
+From Coq Require Import String.
+
+(* the part-of-speech column is the components joined by commas (the `idx + 1 != len` loop) *)
+Theorem C19_pos_joined_spec : forall ps, pos_joined ps = intercalate [COMMA] ps.
+Proof. exact pos_joined_spec. Qed.
+Print Assumptions C19_pos_joined_spec.
+
+(* one printed line, split at its tabs, is exactly the documented columns: surface, part of speech, normalised form and,
+   with print_all, dictionary form, reading, dictionary id, synonym group ids and the (OOV) mark -- for every morpheme whose
+   text fields contain neither a tab nor a line feed *)
+Theorem C19_line_columns :
+  forall all m, clean m = true -> split_on TAB (line all m) = fields all m.
+Proof. exact line_columns. Qed.
+Print Assumptions C19_line_columns.
+
+(* the printed sentence, read back line by line up to "EOS", yields the columns of every morpheme in order: the format adds
+   nothing, drops nothing and is unambiguous (a morpheme line is never the EOS line) *)
+Theorem C19_columns_read_back :
+  forall all ms, forallb clean ms = true -> read_back (simple all ms) = Some (map (fields all) ms).
+Proof. exact read_back_simple. Qed.
+Print Assumptions C19_columns_read_back.
+
+Theorem C19_line_is_not_eos : forall all m, line all m <> eos_line.
+Proof. exact line_is_not_eos. Qed.
+Print Assumptions C19_line_is_not_eos.
+
+Theorem C19_simple_injective :
+  forall all ms ms', forallb clean ms = true -> forallb clean ms' = true ->
+  simple all ms = simple all ms' -> map (fields all) ms = map (fields all) ms'.
+Proof. exact simple_injective. Qed.
+Print Assumptions C19_simple_injective.
+
+(* ---- obligations on regenerated facts: what output.rs writes, in order, is what the model writes ---- *)
+Lemma C19_fact_basic_writes :
+  Generated.CliFacts.basic_writes =
+  [("surface", []); ("lit", [TAB]); ("pos_component", []); ("lit", [COMMA]); ("lit", [TAB]); ("normalized_form", [])]%string.
+Proof. reflexivity. Qed.
+Lemma C19_fact_pos_comma_guard : Generated.CliFacts.pos_comma_guard = "idx + 1 != all_pos.len()"%string.
+Proof. reflexivity. Qed.
+Lemma C19_fact_extended :
+  Generated.CliFacts.extended_format =
+  [("lit", [TAB]); ("display", []); ("lit", [TAB]); ("display", []); ("lit", [TAB]); ("display", []); ("lit", [TAB]); ("debug", [])]%string
+  /\ Generated.CliFacts.extended_args = ["dictionary_form"; "reading_form"; "dictionary_id"; "synonym_group_ids"]%string
+  /\ Generated.CliFacts.oov_suffix = [TAB] ++ oov_mark
+  /\ Generated.CliFacts.simple_write_shape_ok = true.
+Proof. repeat split; reflexivity. Qed.
+(* every column a format prints is served by the word-info fields the format requests (Simple::subset) *)
+Lemma C19_fact_subset_covers_columns :
+  covered ["surface"; "part_of_speech"; "normalized_form"]%string Generated.CliFacts.subset_basic = true /\
+  covered (List.app ["surface"; "part_of_speech"; "normalized_form"]%string
+                    (List.app Generated.CliFacts.extended_args ["is_oov"%string]))
+          (List.app Generated.CliFacts.subset_basic Generated.CliFacts.subset_all_extra) = true.
+Proof. split; vm_compute; reflexivity. Qed.
